@@ -757,6 +757,8 @@ func main() {
 			h.icmpInitiator(id, rp.Class, remote, priv)
 		case "agents":
 			runAgents(h, root, true)
+		case "ack-replay":
+			ackReplayKeys(h)
 		}
 	} else {
 		ids := []uint64{0, 1, 255, 256, 1<<32 - 1, 1 << 32, 1<<63 - 1, 1 << 63, ^uint64(0) - 1, ^uint64(0)}
@@ -846,6 +848,7 @@ func main() {
 		}
 		// ---- live agents ----
 		runAgents(h, root, false)
+		ackReplayKeys(h)
 	}
 
 	var sb strings.Builder
